@@ -487,7 +487,12 @@ def descendants (d : Decls) (p : String) : List String :=
 
 def isFamily (d : Decls) (n : String) : Bool := !(descendants d n).isEmpty
 
-def sortStrings (l : List String) : List String := l.mergeSort fun a b => decide (a ≤ b)
+def insertStr (a : String) : List String → List String
+  | [] => [a]
+  | b :: r => if a ≤ b then a :: b :: r else b :: insertStr a r
+
+/-- `sorted(...)` of strings (insertion sort: structural, so the kernel can evaluate it) -/
+def sortStrings (l : List String) : List String := l.foldr insertStr []
 
 /-- `family_map`: every namespace with descendants except root ↦ its sorted *task* descendants -/
 def familyMap (d : Decls) : FamMap :=
